@@ -71,7 +71,8 @@ OUnchecked(T, x)   == OVal(T, x)        \* only ever evaluated when the precondi
 \* Form names.  The operator forms are the by-value / by-reference operand combinations, the op-assign
 \* forms and the const inherent twin of an operator (property C17); the nt_ forms are the num_traits
 \* forwarders (property C18).  All of them must behave like the inherent form they are grouped with.
-OpForms == {"op", "op_rv", "op_vr", "op_rr", "op_assign", "op_assign_ref", "op_inherent"}
+OpForms == {"op", "op_rv", "op_vr", "op_rr", "op_assign", "op_assign_ref", "op_inherent",
+            "op_rr_same", "op_vr_same", "op_assign_same"}      \* the same object on both sides of the operator
 CanonForm(f) == CASE f \in OpForms -> "op"
                   [] f = "nt_checked" -> "checked"
                   [] f = "nt_wrapping" -> "wrapping"
